@@ -7,7 +7,7 @@
    prs (fmt x) = Some x, no TAB/LF in fmt x, fmt x <> '.' (part of [gff_wf]). *)
 From Coq Require Import List NArith Lia.
 From NV Require Import Base.Percent Base.PercentProofs Text.TextBase Text.TextBaseProofs
-  Text.Gff Text.GffProofs Text.Gtf Text.GtfProofs Text.Bed Text.BedProofs Text.BedRec Text.BedRecProofs Text.BedTyped Text.BedTypedProofs Text.GffLine Text.GffLineProofs Text.GtfLine Text.GtfLineProofs Text.TightProofs
+  Text.Gff Text.GffProofs Text.Gtf Text.GtfProofs Text.Bed Text.BedProofs Text.BedRec Text.BedRecProofs Text.BedTyped Text.BedTypedProofs Text.BedRewrite Text.BedRewriteProofs Text.BedRewriteIdemProofs Text.GffLine Text.GffLineProofs Text.GtfLine Text.GtfLineProofs Text.TightProofs
   Text.GffDirValue Text.GffDirValueProofs Text.GffFile Text.GffFileProofs Text.GffAttrMap Text.GffAttrMapProofs
   Text.TightSourceProofs Text.LineBridge Text.LineBridgeProofs Io.Source Io.BufReader Io.ReadExactProofs Io.BufReaderProofs.
 Import ListNotations.
@@ -640,3 +640,55 @@ Theorem c18_gff_source_type_roundtrip_iff : forall fmt prs r line,
    <-> source_type_plain r).
 Proof. exact gff_source_type_roundtrip_iff. Qed.
 Print Assumptions c18_gff_source_type_roundtrip_iff.
+
+(* ---- BED: write -> read -> own -> write is the identity on the TEXT (round 10) ---- *)
+(* The copy loop of a caller (read_record into a Record<N>, RecordBuf<N>::try_from_feature_record,
+   write_feature_record; model NV.Text.BedRewrite): for EVERY record the writer accepts -- typed
+   extra columns (BED7..BED12 thick/color/block columns as Int64/UInt64/Float64/Character/String)
+   and the name Some "." included, which the value-level theorems c18_bed_record_roundtrip /
+   c18_bed_typed_roundtrip exclude or weaken -- the line followed by ANY text, read into ANY record
+   of that N, converts without error to [bed_copy_of] (name '.' -> None, typed columns -> the
+   Strings of their text, fields above N at the builder's defaults) and that record is written as
+   the very same bytes: what the round trip loses is textual aliasing only. *)
+Theorem c18_bed_write_read_write : forall fmt64 r vs line rest old,
+  bed_wf_dot r -> float_texts_ok fmt64 vs -> bed_write_typed fmt64 r vs = Ok line ->
+  length (bf_std old) = b_n r ->
+  let o := bed_read_record (b_n r) (line ++ 10 :: rest) old in
+  bed_owned (b_n r) (bed_view_of (b_n r) (ro_rec o)) = Ok (bed_copy_of fmt64 r vs)
+  /\ bed_write (bed_copy_of fmt64 r vs) = Ok line
+  /\ bed_rewrite (b_n r) (line ++ 10 :: rest) old = Ok line.
+Proof. exact bed_write_read_write. Qed.
+Print Assumptions c18_bed_write_read_write.
+
+(* bed_wf_dot is bed_wf without the clause about the '.' name *)
+Theorem c18_bed_wf_is_wf_dot : forall r, bed_wf r -> bed_wf_dot r.
+Proof. exact bed_wf_is_wf_dot. Qed.
+Print Assumptions c18_bed_wf_is_wf_dot.
+
+(* witness: BED4 `c<TAB>0<TAB>0<TAB>.` written from the name Some "." -- the value read back
+   differs (name None), the text written from it does not *)
+Theorem c18_bed_dot_rewrite_same_text :
+  bed_write bed_dot_rec = Ok [99; 9; 48; 9; 48; 9; 46]
+  /\ bed_rewrite 4 [99; 9; 48; 9; 48; 9; 46; 10] (bed_default 4) = Ok [99; 9; 48; 9; 48; 9; 46]
+  /\ bed_owned 4 (bed_view_of 4 (ro_rec (bed_read_record 4 [99; 9; 48; 9; 48; 9; 46; 10] (bed_default 4))))
+     = Ok (bed_undot bed_dot_rec)
+  /\ bed_undot bed_dot_rec <> bed_dot_rec.
+Proof. exact bed_dot_rewrite_same_text. Qed.
+Print Assumptions c18_bed_dot_rewrite_same_text.
+
+(* for ANY input text and ANY previous record state: whatever record the conversion returns after
+   a read_record call is in the domain of c18_bed_write_read_write (positions and score in range) *)
+Theorem c18_bed_owned_wf_dot : forall n f b, (3 <= n <= 6)%nat ->
+  bed_owned n (bed_view_of n f) = Ok b -> bed_wf_dot b /\ b_n b = n.
+Proof. exact bed_owned_wf_dot. Qed.
+Print Assumptions c18_bed_owned_wf_dot.
+
+(* hence the copy loop normalises foreign text in ONE step: if a record read from ANY text (CR
+   before LF, comment lines before it, missing final LF, '.' name, ...) converts and is written as
+   [line], then [line] is a fixpoint of read -> own -> write, followed by any text, read into any
+   record of that N *)
+Theorem c18_bed_rewrite_idempotent : forall n src old line rest old',
+  (3 <= n <= 6)%nat -> bed_rewrite n src old = Ok line -> length (bf_std old') = n ->
+  bed_rewrite n (line ++ 10 :: rest) old' = Ok line.
+Proof. exact bed_rewrite_idempotent. Qed.
+Print Assumptions c18_bed_rewrite_idempotent.
